@@ -14,7 +14,7 @@ import (
 
 func init() {
 	suites["limiter"] = suite{
-		rule: "C38: (1) script-level episodes on the fake: rateLimitScript with arbitrary (inc, next, cur) incl. non-monotone caller clocks, windows -50/0/1/10/1000 ms, server clock skews around the +1000 ms key expiry, huge increments (overflow) vs the faithful Lean script model; (2) sequential end-to-end: real NewRateLimiter/Check/Allow/AllowN with default and custom (limit, window) options, n in {-1,0,1,2,3,limit+1}, millisecond windows with real sleeps across window ends, against the fake; each call = one model line (arguments the glue sent, reply, Go admission rule) + one '!result' oracle line judged from the observed results only (Remaining = max(limit - requested so far in that ResetAtMs window, 0), admitted units <= limit, Check admits iff below the limit); (3) concurrent callers (goroutines) on shared identifiers, emitted in the fake's serialisation order; the harness also sums admitted units per (identifier, ResetAtMs); non-trivial = distinct op",
+		rule: "C38: (1) script-level episodes on the fake: rateLimitScript with arbitrary (inc, next, cur) incl. non-monotone caller clocks, windows -50/0/1/10/1000 ms, server clock skews around the +1000 ms key expiry, huge increments (overflow) vs the faithful Lean script model; (2) sequential end-to-end: real NewRateLimiter/Check/Allow/AllowN with default and custom (limit, window) options, n in {-1,0,1,2,3,limit+1}, millisecond windows with real sleeps across window ends, against the fake; each call = one model line (arguments the glue sent, reply, Go admission rule) + one '!result' oracle line judged from the observed results only (Remaining = max(limit - requested so far in that ResetAtMs window, 0), admitted units <= limit, Check admits iff below the limit); (3) concurrent callers (goroutines) on shared identifiers, emitted in the fake's serialisation order; (4) late delivery: after a window's limit is used up one more call is stamped inside the window and delivered to the fake after the window's end; the harness also sums admitted units per (identifier, ResetAtMs); non-trivial = distinct op",
 		run:  runLimiter,
 		replay: func(c *Ctx, lines []string) {
 			// a replay re-executes script-level lines; end-to-end lines depend on the wall clock and are
@@ -238,6 +238,38 @@ func runLimiter(c *Ctx) {
 			idx, _ := lg.ctx.Value(ctxKey{}).(int)
 			ep.emit(c, calls[idx], &lg)
 		}
+	}
+	// (4) late delivery: the limit of a window is used up, then one more call is stamped by the client inside the
+	// window but reaches the server only after the window's end (latency); it belongs to the exhausted window
+	for epi := 0; epi < max(3, c.N/300); epi++ {
+		limit := 1 + c.Rng.IntN(4)
+		window := time.Duration(15+c.Rng.IntN(15)) * time.Millisecond
+		ep.fresh(c, limit, window)
+		one := func(ctx context.Context, n int64) *limCall {
+			lc := &limCall{id: "late", n: n, limit: limit, window: window}
+			ep.call(ctx, lc)
+			lg := ep.srv.takeLog()
+			if len(lg) == 1 {
+				ep.emit(c, lc, &lg[0])
+			} else {
+				ep.emit(c, lc, nil)
+			}
+			return lc
+		}
+		var last *limCall
+		for i := 0; i < limit; i++ {
+			last = one(bg, 1)
+		}
+		if last.err != nil {
+			continue
+		}
+		wait := time.Until(time.UnixMilli(last.res.ResetAtMs)) + time.Duration(1+c.Rng.IntN(3))*time.Millisecond
+		if wait <= 2*time.Millisecond {
+			c.Hit("late-delivery:too-slow")
+			continue // the machine stalled: the window is over already
+		}
+		c.Hit("late-delivery")
+		one(tagged(&callTag{delay: wait}), []int64{1, 1, 2, 0}[c.Rng.IntN(4)])
 	}
 	// excluded point: negative custom window (not validated by WithCustomRateLimit). Observation only.
 	ep.fresh(c, 2, 50*time.Millisecond)
